@@ -9,7 +9,7 @@ import (
 	"fmt"
 	"os"
 	"strings"
-	"time"
+	"sync"
 
 	"github.com/bio-routing/bio-rd/protocols/bgp/packet"
 	"github.com/bio-routing/bio-rd/protocols/bgp/types"
@@ -120,6 +120,8 @@ type outcome struct {
 	checked bool
 }
 
+var hg *rig.HangGuard
+
 func runCase(r *vf.Run, c c9case) (o outcome) {
 	l := rig.DefaultLocal
 	s := c.sess()
@@ -131,8 +133,8 @@ func runCase(r *vf.Run, c c9case) (o outcome) {
 		}
 		return f
 	}
-	var obs []rig.Attr
-	g, hung, st := rig.GuardTimeout(20*time.Second, func() {
+	hangFeat := feat("addpath", c.AddPath)
+	obs, g, hung, st := rig.RunGuarded(hg, fmt.Sprint(hangFeat), func() (obs []rig.Attr) {
 		rg := rig.New(l, true)
 		var out *rig.Out
 		switch c.Mode {
@@ -152,9 +154,10 @@ func runCase(r *vf.Run, c c9case) (o outcome) {
 				obs = append(obs, rig.FromPath(p))
 			}
 		}
+		return obs
 	})
 	if hung {
-		r.Violate(vf.Violation{Clause: "hang", Features: feat("addpath", c.AddPath), Detail: "the table call did not return within 20 s; blocked in:\n" + st, Case: c})
+		r.Violate(vf.Violation{Clause: "hang", Features: hangFeat, Detail: fmt.Sprintf("path %s to %s: the table call never returned; blocked in:\n%s", a.Short(), s, st), Case: c})
 		return
 	}
 	if g != "" {
@@ -262,6 +265,8 @@ func main() {
 		r.Rule("complete enumeration of 6 AS_PATH shapes (2- and 4-ASN sequence, leading AS_SET, sequence+set, empty, with ORIGINATOR_ID/CLUSTER_LIST already present) x 6 community sets (none, plain, NO_EXPORT, NO_ADVERTISE, plain+NO_EXPORT, NO_EXPORT+NO_ADVERTISE) x source {eBGP peer, iBGP peer, RR client, the target peer itself, redistributed static} x target {eBGP, eBGP RS client, iBGP, iBGP RR client} x 27 role settings on eBGP targets (off, local only, 5 local x 5 remote roles) x OTC {absent, own ASN, other ASN} x add-path {off, on} x way of reaching the Adj-RIB-Out {propagated Loc-RIB change, initial dump at registration, refresh after an export-policy replacement}. distinct_nontrivial = combinations in which a rule of the table decided something (a forbidden advertisement to look for, or an advertised path whose rewrites were checked)")
 		r.Assume("RFC 9234 roles are enumerated on eBGP targets only", "table half only: LOCAL_PREF-only-to-iBGP and the presence of ORIGINATOR_ID/CLUSTER_LIST/OTC in the UPDATE bytes are judged by the wire half (see evidence key wire_half)",
 			"whether an admitted path must be present is C08's statement; here a missing path is not an alarm, but the run is inconclusive unless most admitted paths were observed")
+		_, replay := r.Replaying()
+		hg = rig.NewHangGuard(replay)
 		if raw, ok := r.Replaying(); ok {
 			var c c9case
 			vf.Decode(raw, &c)
@@ -271,8 +276,12 @@ func main() {
 		cases := enumerate()
 		byTarget := map[string]int{}
 		byRule := map[string]int{}
-		for i, c := range cases {
+		var mu sync.Mutex
+		vf.Parallel(len(cases), 16, func(i int) {
+			c := cases[i]
 			o := runCase(r, c)
+			mu.Lock()
+			defer mu.Unlock()
 			r.Eval(1)
 			byTarget[c.Target]++
 			if o.checked {
@@ -291,7 +300,7 @@ func main() {
 			if i%9973 == 0 {
 				r.Sample(map[string]any{"case": c, "path": c.path().Short(), "session": c.sess().String(), "excluded_by": rig.Excluded(rig.DefaultLocal, c.sess(), c.path())})
 			}
-		}
+		})
 		r.Exhaustive(true)
 		r.Set("cases_by_target", byTarget)
 		r.Set("cases_by_excluding_rule", byRule)
